@@ -1,1 +1,7 @@
 import PyIkev2.Prim
+import PyIkev2.Model.Codec
+import PyIkev2.Model.Wire
+import PyIkev2.Model.Toy
+import PyIkev2.Props.C05
+import PyIkev2.Props.C06
+import PyIkev2.Props.C07
